@@ -608,7 +608,8 @@ Theorem assignment_stores_value (c c' : config F) vs name toks e v vs1 :
   exists vs2 vs2',
     execute_ast (basic_execute lx ck) c vs (AAssignment name toks e) = Ok (IOk v, vs2) /\
     execute_ast (basic_execute lx ck) c' vs (AAssignment name toks e) = Ok (IOk v, vs2') /\
-    vs2 = vs2' /\ option_map (@v_data F) (assoc name vs2) = Some v.
+    vs2 = vs2' /\
+    option_map (@v_data F) (assoc (match assoc name vs1 with Some _ => name | None => var_key vs1 toks end) vs2) = Some v.
 Proof.
   intros H E.
   rewrite (execute_ast_real c c' vs (AAssignment name toks e) H).
